@@ -14,8 +14,8 @@
 //
 // Part B' (termination with keepalives): a child process repeats a query over several hundred days with a
 // tiny keepalive interval and an enabled log level on all CPUs; it must finish. If it does not, the
-// verdict is state based: violation only if the runtime's goroutine dump shows every goroutine with a
-// goProbe frame parked in a lock / channel wait for at least a minute (one of them on a mutex).
+// verdict is state based: violation only if the runtime's goroutine dump shows a goroutine waiting for a
+// mutex for two minutes or more while no goroutine with a goProbe frame is running or runnable.
 //
 // Part B (termination): databases with N tiny one-block days (N up to several thousand) are queried
 // by a separate, un-hooked process pinned to one CPU (`taskset -c 0 <self> -role c11-query ...`, so
@@ -439,14 +439,17 @@ var (
 	minutesRe  = regexp.MustCompile(`^goroutine \d+[^\[]*\[([^\],]+), (\d+) minutes`) // the SIGQUIT dump adds "gp=… m=…" before the state
 )
 
-// blockedForMinutes is the deadlock witness of the keepalive cases: in the runtime's goroutine dump
-// EVERY goroutine that has a goProbe frame has been parked in a lock / channel / wait-group wait for at
-// least a minute (the runtime annotates such goroutines with "N minutes"; a goroutine that is merely
-// starved is "runnable" or "running" and carries no such annotation), and at least one of them waits
-// for a sync.Mutex / sync.RWMutex. A query over such a database needs well under a second of CPU.
+// blockedForMinutes is the deadlock witness of the keepalive cases, read off the runtime's own
+// goroutine dump: (a) at least one goroutine with a goProbe frame has been waiting for a sync.Mutex /
+// sync.RWMutex for two minutes or more (the runtime annotates parked goroutines with "N minutes"), and
+// (b) no goroutine with a goProbe frame is running, runnable or in a system call — all of them are
+// parked (lock, channel, wait group, select on a timer). A goroutine that is merely starved is
+// "runnable", so (b) excludes a slow machine; a query over such a database needs well under a second
+// of CPU, so a lock that nobody has released for minutes while nothing runs is a deadlock.
 func blockedForMinutes(dump string) (witness bool, summary string) {
 	var lines []string
 	nGoProbe, lockWait := 0, false
+	stateRe := regexp.MustCompile(`^goroutine \d+[^\[]*\[([^\],]+)`)
 	for _, g := range strings.Split(dump, "\n\n") {
 		g = strings.TrimSpace(g)
 		if !strings.HasPrefix(g, "goroutine ") || !strings.Contains(g, "github.com/els0r/goProbe") {
@@ -454,16 +457,19 @@ func blockedForMinutes(dump string) (witness bool, summary string) {
 		}
 		head, _, _ := strings.Cut(g, "\n")
 		nGoProbe++
-		m := minutesRe.FindStringSubmatch(head)
-		if m == nil {
-			return false, "goroutine not blocked for minutes: " + head
+		st := stateRe.FindStringSubmatch(head)
+		if st == nil {
+			return false, "unparsable goroutine header: " + head
 		}
-		switch {
-		case strings.HasPrefix(m[1], "sync.RWMutex"), strings.HasPrefix(m[1], "sync.Mutex"):
-			lockWait = true
-		case m[1] == "semacquire", m[1] == "chan receive", m[1] == "chan send", m[1] == "select", strings.HasPrefix(m[1], "sync."):
-		default:
-			return false, "goroutine in a state that is not a lock / channel wait: " + head
+		switch state := st[1]; {
+		case state == "running", state == "runnable", state == "syscall", strings.HasPrefix(state, "GC "):
+			return false, "goroutine not parked: " + head
+		case strings.HasPrefix(state, "sync.RWMutex"), strings.HasPrefix(state, "sync.Mutex"):
+			if m := minutesRe.FindStringSubmatch(head); m != nil {
+				if n, _ := strconv.Atoi(m[2]); n >= 2 {
+					lockWait = true
+				}
+			}
 		}
 		top := ""
 		for _, l := range strings.Split(g, "\n") {
@@ -474,7 +480,10 @@ func blockedForMinutes(dump string) (witness bool, summary string) {
 		}
 		lines = append(lines, head+" "+top)
 	}
-	return nGoProbe >= 2 && lockWait, strings.Join(lines, "\n")
+	if !lockWait {
+		return false, "no goroutine has been waiting for a mutex for two minutes or more"
+	}
+	return nGoProbe >= 2, strings.Join(lines, "\n")
 }
 
 // runKeepalive: termination with keepalives enabled. A database of several hundred one-block days
@@ -562,7 +571,7 @@ func runKeepalive(c *fw.Case) {
 		}
 		nDone := strings.Count(string(all), "keepalive query")
 		if ok, sum := blockedForMinutes(dump); ok {
-			c.Violatef("no_termination|all_query_goroutines_blocked_for_minutes", "%s: no result after %d s (%d queries had finished); in the goroutine dump every goroutine with a goProbe frame has been parked in a lock / channel wait for at least a minute and at least one waits for a mutex:\n%s", desc, i+1, nDone, sum)
+			c.Violatef("no_termination|mutex_wait_for_minutes_nothing_runnable", "%s: no result after %d s (%d queries had finished); in the goroutine dump a goroutine has been waiting for a mutex for two minutes or more and no goroutine with a goProbe frame is running or runnable:\n%s", desc, i+1, nDone, sum)
 		} else {
 			c.Inconclusive("%s: child still running after %d s (%d queries done) without the all-blocked witness (%s)", desc, i+1, nDone, firstLines(sum, 3))
 		}
